@@ -652,3 +652,34 @@ func c36countPings(tr *vTransport) int {
 	}
 	return k
 }
+
+// (b') a peer that answers every server ping at once (the pong is dispatched
+// as soon as the ping frame reaches the transport, on its own thread, the way
+// a reader goroutine would) is never disconnected: neither for a missing pong
+// nor for an "unsolicited" one. One preemption inside the ping timer callback
+// lets the pong be handled before the callback finished its bookkeeping.
+func vh_C36_prompt_pong() {
+	n := vNewNode(Config{})
+	tr := vNewTransport() // ping every 25s, pong within 10s
+	c := vNewClient(n, "u1", tr)
+	vAssert(vConnect(c), "connect proceeds")
+	vSettle()
+	pings := 0
+	tr.onWrite = func(b []byte) {
+		if len(b) == 2 && b[0] == '{' && b[1] == '}' {
+			pings++
+			go c.HandleCommand(&protocol.Command{}, 0)
+		}
+	}
+	pingEvery := 25 * c36sec
+	vPreempt(vParam("c36_pong_preempt", 1))
+	vAdvance(pingEvery / 2) // the first ping is due (random source returns 0 => interval/2)
+	vSettle()
+	vPreempt(0)
+	vAssert(pings == 1, "ping sent")
+	vAssert(!tr.closed, "a connection that answers the ping at once is not disconnected")
+	vAdvance(pingEvery)
+	vSettle()
+	vAssert(pings == 2 && !tr.closed, "next ping sent on schedule and answered")
+	vCover(true, "two-pings-answered")
+}
